@@ -121,7 +121,7 @@ func nilEdgeOf(originPred func(o string) bool) acceptFn {
 
 func c10SetAfterWrite(c *Ctx) {
 	n := 0
-	for _, fn := range c.Funcs {
+	for _, fn := range c.subjects() {
 		if !strings.HasPrefix(fnKey(fn), "sparseFileLoader.") {
 			continue
 		}
